@@ -5,7 +5,8 @@
     by a syntactic analysis of the AST (deterministic pure functions of their inputs give byte-equal outputs);
 (c) one ground obligation: compiling the shipped core_defs.yaml with the real compiler reproduces the shipped
     core_defs.py byte for byte (decided by running the compiler on the current tree).
-The combined-YAML round trip of C16 (b) is NOT decided here.
+The combined-YAML round trip of C16 (b) is NOT decided; a BOUNDED stand-in (one input: the shipped core definition closure
+is compiled to the combined YAML, recompiled, and the generated classes compared) is run and reported under `bounded`.
 """
 from __future__ import annotations
 import ast, filecmp, os, shutil, subprocess, tempfile, time
@@ -109,6 +110,34 @@ def check(tier="quick", seed=0, repo="/repo"):
                 res["open"][name] = dict(kind="ground", status="refuted", reason="outputs differ", candidates=[], reproduced=True,
                                          replay_how="cd src/pyrtma && python -m pyrtma.compile -i core_defs/core_defs.yaml -o <tmp> --py; cmp <tmp>/core_defs.py core_defs.py",
                                          text=("two runs of the compiler differ; " if not same_twice else "") + "the shipped core_defs.py is not what the compiler produces from core_defs.yaml:\n" + diff)
+        # (b) BOUNDED stand-in (one input: the shipped core definition closure): combined YAML -> recompile -> same generated classes
+        bname = "C16/bounded/combined-yaml-roundtrip(core_defs)"
+        if outs and len(outs) == 2:
+            o1, o2 = os.path.join(tmp, "rt1"), os.path.join(tmp, "rt2")
+            os.makedirs(o1); os.makedirs(o2)
+            p1 = subprocess.run(["/venv/bin/python", "-m", "pyrtma.compile", "-i", "core_defs/core_defs.yaml", "-o", o1, "--py", "--combined", "-n", "core_defs"], cwd=base, env=env,
+                                capture_output=True, text=True, timeout=300)
+            comb = os.path.join(o1, "core_defs_combined.yaml")
+            p2 = subprocess.run(["/venv/bin/python", "-m", "pyrtma.compile", "-i", comb, "-o", o2, "--py", "--no_core_import", "-n", "core_defs"], cwd=tmp, env=env,
+                                capture_output=True, text=True, timeout=300) if os.path.exists(comb) else None
+
+            def sig(path):
+                return [l for l in open(path).read().splitlines() if not l.startswith("#") and "COMPILED_PYRTMA" not in l and "type_source" not in l]
+            entry = dict(check=bname, bound="one definition closure: the shipped core_defs.yaml + data_logger.yaml + quick_logger.yaml", result="held")
+            if p1.returncode != 0 or p2 is None or p2.returncode != 0:
+                entry["result"] = "violated"
+                detail = "the combined YAML of the shipped core definitions does not recompile: " + ((p2.stderr or p2.stdout)[-300:] if p2 is not None else (p1.stderr or p1.stdout)[-300:])
+            elif sig(os.path.join(o1, "core_defs.py")) != sig(os.path.join(o2, "core_defs.py")):
+                import difflib
+                entry["result"] = "violated"
+                detail = "recompiling the combined YAML of the shipped core definitions gives different ids / hashes / sizes / layouts:\n" + "\n".join(
+                    list(difflib.unified_diff(sig(os.path.join(o1, "core_defs.py")), sig(os.path.join(o2, "core_defs.py")), "original", "from combined yaml", lineterm="", n=0))[:12])
+            res["bounded"].append(entry)
+            if entry["result"] == "violated":
+                # a bounded check found a concrete failing input on the real code: reported (never counted as proved when it holds)
+                res["obligations"] += 1
+                res["open"][bname] = dict(kind="bounded", status="refuted", reason="bounded stand-in failed", candidates=[], reproduced=True, text=detail,
+                                          replay_how="python -m pyrtma.compile -i core_defs/core_defs.yaml --py --combined; recompile the combined file with --no_core_import; compare")
     except Exception as ex:
         res["undecided"].append(f"{name}: {ex!r}")
     finally:
